@@ -245,12 +245,26 @@ def check_sec_post(pre_d, pre_s, post, strict, path, problems):
         check_sec_post(dc if dc is not None else EMPTY_SEC, sc, cands[0], strict, path + '/' + nm, problems)
 
 
+_IDENTITY_KEYS = ('parent', 'merged', 'child_ids')
+
+
+def _content(raw):
+    """The parent=False view (no object identities) of a harness snapshot dict taken with parent=True."""
+    out = {k: v for k, v in raw.items() if k not in _IDENTITY_KEYS}
+    if 'props' in out:
+        out['props'] = tuple(_content(p) for p in out['props'])
+    if 'sections' in out:
+        out['sections'] = tuple(_content(c) for c in out['sections'])
+    return out
+
+
 def judge(col, name, kind_label, dest, src, strict, witness, feature, merge_fn, context=''):
     """Run dest.merge(src, strict) and evaluate the whole contract.  kind_label: 'section' | 'property'.
     context: suffix of the feature label naming the surroundings of the feature (name sharing mode ...)."""
     snapper = h.snap_sec if kind_label == 'section' else h.snap_prop
-    pre_d, pre_s = snapper(dest, True, False), snapper(src, True, False)
-    full_d, full_s = h.snap(dest), h.snap(src)
+    raw_d, raw_s = snapper(dest, True, True), snapper(src, True, True)      # one traversal serves both views
+    pre_d, pre_s = _content(raw_d), _content(raw_s)
+    full_d, full_s = h.freeze(raw_d), h.freeze(raw_s)
     roots = [r for r in h.roots_of([dest, src]) if r is not dest and r is not src]
     full_roots = [h.snap(r) for r in roots]
     conflicts = []
@@ -268,8 +282,9 @@ def judge(col, name, kind_label, dest, src, strict, witness, feature, merge_fn, 
         col.fail(check='%s/%s' % (name, clause), cls={'clause': clause, 'feature': feat + context},
                  witness=dict(witness, **base), detail=detail)
 
+    raw_post = snapper(dest, True, True)
     if kind == 'exc':
-        changed = h.diff(full_d, h.snap(dest)) or h.diff(full_s, h.snap(src))
+        changed = h.diff(full_d, h.freeze(raw_post)) or h.diff(full_s, h.snap(src))
         if not changed:
             for r, before in zip(roots, full_roots):
                 changed = changed or h.diff(before, h.snap(r))
@@ -288,7 +303,7 @@ def judge(col, name, kind_label, dest, src, strict, witness, feature, merge_fn, 
     d = h.diff(full_s, h.snap(src))
     if d:
         fail('src-unchanged', feature, 'src changed: %s' % d)
-    post = snapper(dest, True, False)
+    post = _content(raw_post)
     problems = []
     if kind_label == 'section':
         check_sec_post(pre_d, pre_s, post, strict, '', problems)
@@ -571,6 +586,12 @@ def _feature(label):
     return next(f for f in PROP_FEATURES + SEC_FEATURES if f[0] == label)
 
 
+def _chain_or_wide(shape):
+    def chain(forest):
+        return len(forest) == 0 or (len(forest) == 1 and chain(forest[0]))
+    return chain(shape) or all(sub == () for sub in shape)
+
+
 def _ctx(mode):
     return '' if mode == 'none' else ' | names: ' + mode
 
@@ -624,8 +645,9 @@ def run_section_merge(tier, seed):
         for shape in h.tree_shapes(max_nodes):
             n = count_nodes(shape)
             for pos in range(n + 1):
-                if tier == 'quick' and n == max_nodes and pos != n:
-                    continue        # quick: largest skeletons with the feature at the last (deepest / right-most) node only
+                if tier == 'quick' and n == max_nodes and (pos != n or not _chain_or_wide(shape)):
+                    continue        # quick: of the largest skeletons the chain and the row of siblings only, with
+                                    # the feature at the last (deepest / right-most) node
                 for feature, where in core:
                     if pos == 0 and feature[0] in type_features:
                         continue
